@@ -226,4 +226,310 @@ theorem tick_st2 (e : T.Env) (hnow : e.nowS < u64) (s : T.automata_tick.S) (hok 
     · first | exact ht | simpa using ht
 
 
+
+/-- what the enumeration stages may change: the enumeration automaton, the RepeatBand record, the port's time stamp and the
+    callback count, and two scratch locals - nothing else -/
+def onlyEnum (a b : T.automata_tick.S) : Prop :=
+  b.mapping = a.mapping ∧ b.mapping_extra = a.mapping_extra ∧ b.sessions = a.sessions ∧ b.now_ms = a.now_ms ∧ b.now_s = a.now_s ∧
+  b.diverged = a.diverged ∧ b.done = a.done ∧ b.brk = a.brk
+
+theorem onlyEnum_refl (a : T.automata_tick.S) : onlyEnum a a := ⟨rfl, rfl, rfl, rfl, rfl, rfl, rfl, rfl⟩
+theorem onlyEnum_trans {a b c : T.automata_tick.S} (h1 : onlyEnum a b) (h2 : onlyEnum b c) : onlyEnum a c := by
+  obtain ⟨a1, a2, a3, a4, a5, a6, a7, a8⟩ := h1
+  obtain ⟨b1, b2, b3, b4, b5, b6, b7, b8⟩ := h2
+  exact ⟨b1.trans a1, b2.trans a2, b3.trans a3, b4.trans a4, b5.trans a5, b6.trans a6, b7.trans a7, b8.trans a8⟩
+
+/-- the environment's two clocks agree (seconds = ms / 1000) and are far from wrapping -/
+structure EnvOk (e : T.Env) : Prop where
+  hs : e.nowS = e.nowMs / 1000
+  hc : ClockOk e
+
+structure EnumOk (a : T.automata) : Prop where
+  hno : a.transitions_no ≤ a.transitions_table.length
+  his : IsEnumeration a
+
+theorem enumOk_same (a b : T.automata) (h : sameTables a b) (ha : EnumOk a) : EnumOk b := by
+  obtain ⟨h1, h2, h3⟩ := h
+  refine ⟨by rw [h1, h2]; exact ha.hno, ?_⟩
+  unfold IsEnumeration; rw [(rowsOfC_same a b ⟨h1, h2, h3⟩).1]; exact ha.his
+
+/-- block end: band_update_stats then band_choose_hello_time -/
+theorem tick_st9 (e : T.Env) (he : EnvOk e) (s : T.automata_tick.S) (hb : BandOk s.enumeration_extra) :
+    bandOfC (T.automata_tick.st9 e s).enumeration_extra = bandChooseHelloTime (bandUpdateStats (bandOfC s.enumeration_extra) e.nowMs) e.nowMs ∧
+    BandOk (T.automata_tick.st9 e s).enumeration_extra ∧ onlyEnum s (T.automata_tick.st9 e s) ∧
+    (T.automata_tick.st9 e s).enumeration = s.enumeration ∧ (T.automata_tick.st9 e s).port_last_hello_tx_ms = s.port_last_hello_tx_ms ∧
+    (T.automata_tick.st9 e s).port_send_hello_calls = s.port_send_hello_calls := by
+  have hok := C13T.bandOk_update e s.enumeration_extra he.hc hb
+  have h1 := C13T.block_end_translated e s.enumeration_extra he.hc hb hok
+  unfold T.automata_tick.st9
+  refine ⟨h1, ?_, ⟨rfl, rfl, rfl, rfl, rfl, rfl, rfl, rfl⟩, rfl, rfl, rfl⟩
+  have h2 := (band_choose_hello_time_eq e _ he.hc hok).1
+  have : (T.band_choose_hello_time e (T.band_update_stats e s.enumeration_extra).band).band.Ni = (T.band_update_stats e s.enumeration_extra).band.Ni ∧
+      (T.band_choose_hello_time e (T.band_update_stats e s.enumeration_extra).band).band.r = (T.band_update_stats e s.enumeration_extra).band.r := by
+    have a := congrArg Band.ni h2; have b := congrArg Band.r h2
+    simp only [bandOfC, bandChooseHelloTime] at a b
+    exact ⟨a, b⟩
+  exact ⟨by rw [this.1]; exact hok.1, by rw [this.2]; exact hok.2⟩
+
+/-- the Hello-timeout branch (st8, with st5 = suppressed and st7 = send) is the model's `enumHello` with a wired port -/
+theorem tick_st8 (e : T.Env) (he : EnvOk e) (s : T.automata_tick.S) (hb : BandOk s.enumeration_extra) (hen : EnumOk s.enumeration)
+    (hnm : s.now_ms = e.nowMs) (hltx : s.port_last_hello_tx_ms ≤ e.nowMs)
+    (hdue : s.enumeration_extra.hello_timeout_ts > 0 ∧ e.nowMs ≥ s.enumeration_extra.hello_timeout_ts) :
+    let r := enumHello (fsmOfC s.enumeration) (bandOfC s.enumeration_extra) s.port_last_hello_tx_ms .wired e.nowMs
+    fsmOfC (T.automata_tick.st8 e s).enumeration = r.1 ∧ bandOfC (T.automata_tick.st8 e s).enumeration_extra = r.2.1 ∧
+    (T.automata_tick.st8 e s).port_last_hello_tx_ms = r.2.2.1 ∧
+    (T.automata_tick.st8 e s).port_send_hello_calls = s.port_send_hello_calls + r.2.2.2.length ∧
+    BandOk (T.automata_tick.st8 e s).enumeration_extra ∧ EnumOk (T.automata_tick.st8 e s).enumeration ∧
+    onlyEnum s (T.automata_tick.st8 e s) ∧ (T.automata_tick.st8 e s).port_last_hello_tx_ms ≤ e.nowMs := by
+  intro r
+  obtain ⟨hc1, hc2⟩ := he.hc
+  unfold u64 at hc1 hc2
+  have hdue' : (bandOfC s.enumeration_extra).helloTs > 0 ∧ e.nowMs ≥ (bandOfC s.enumeration_extra).helloTs := hdue
+  have hd64 : (e.nowMs + 18446744073709551616 - s.port_last_hello_tx_ms) % 18446744073709551616 = diff64 e.nowMs s.port_last_hello_tx_ms :=
+    diff64_eq _ _ (by unfold u64; omega)
+  by_cases hsup : s.port_last_hello_tx_ms > 0 ∧ diff64 e.nowMs s.port_last_hello_tx_ms < 1000
+  · -- suppressed: the deadline moves to one second after the last transmit
+    have hr : r = (fsmOfC s.enumeration, { bandOfC s.enumeration_extra with helloTs := s.port_last_hello_tx_ms + 1000 }, s.port_last_hello_tx_ms, []) := by
+      show enumHello _ _ _ _ _ = _
+      unfold enumHello
+      simp only [hdue', and_self, if_true, helloMinIntervalMs_val, hsup]
+    have hmod : (s.port_last_hello_tx_ms + 1000) % 18446744073709551616 = s.port_last_hello_tx_ms + 1000 := Nat.mod_eq_of_lt (by omega)
+    unfold T.automata_tick.st8 T.automata_tick.st5
+    simp only [hnm, hd64, hsup, and_self, decide_true, Bool.and_self, if_true, hmod]
+    rw [hr]
+    refine ⟨?_, ?_, ?_, ?_, ⟨hb.1, hb.2⟩, hen, ⟨?_, ?_, ?_, ?_, ?_, ?_, ?_, ?_⟩, hltx⟩
+    all_goals (first | exact hnm.symm | (simp only []; done) | (simp only [hnm]; done) | (simp [bandOfC]; done))
+  · -- sent
+    have hn1000 : (e.nowMs + 1000) % 18446744073709551616 = e.nowMs + 1000 := Nat.mod_eq_of_lt (by omega)
+    have hcond : (decide (s.port_last_hello_tx_ms > 0) && decide (diff64 e.nowMs s.port_last_hello_tx_ms < 1000)) = false := by
+      rw [Bool.and_eq_false_iff]
+      by_cases h0 : s.port_last_hello_tx_ms > 0
+      · right; simp only [decide_eq_false_iff_not]; exact fun h => hsup ⟨h0, h⟩
+      · left; simp only [decide_eq_false_iff_not]; exact h0
+    have hdo := band_do_hello_eq e s.enumeration_extra he.hc hb
+    obtain ⟨se1, se2⟩ := switch_state_enumeration_eq e s.enumeration 2 hen.hno
+    have hr : r = (stepEnumeration (fsmOfC s.enumeration) X.enumHello (e.nowMs / 1000),
+        (if (bandDoHello (bandOfC s.enumeration_extra) e.nowMs).helloTs < e.nowMs + 1000
+          then { bandDoHello (bandOfC s.enumeration_extra) e.nowMs with helloTs := e.nowMs + 1000 } else bandDoHello (bandOfC s.enumeration_extra) e.nowMs),
+        e.nowMs, [e.nowMs]) := by
+      show enumHello _ _ _ _ _ = _
+      unfold enumHello
+      simp only [hdue', and_self, if_true, helloMinIntervalMs_val, hsup, if_false]
+    unfold T.automata_tick.st8 T.automata_tick.st7 T.automata_tick.st6
+    simp only [hnm, hd64, hcond, Bool.false_eq_true, if_false, hn1000]
+    rw [hr]
+    have hband : bandOfC (T.band_do_hello e s.enumeration_extra).band = bandDoHello (bandOfC s.enumeration_extra) e.nowMs := hdo
+    have hts : (T.band_do_hello e s.enumeration_extra).band.hello_timeout_ts = (bandDoHello (bandOfC s.enumeration_extra) e.nowMs).helloTs := by
+      have := congrArg Band.helloTs hband; simpa [bandOfC] using this
+    have hni : (T.band_do_hello e s.enumeration_extra).band.Ni = s.enumeration_extra.Ni ∧ (T.band_do_hello e s.enumeration_extra).band.r = s.enumeration_extra.r := by
+      have a := congrArg Band.ni hband; have b := congrArg Band.r hband
+      simp only [bandOfC, bandDoHello, bandChooseHelloTime] at a b
+      exact ⟨a, b⟩
+    have hen2 : EnumOk (T.switch_state_enumeration e s.enumeration 2).autom := enumOk_same _ _ se2 hen
+    have hstep : fsmOfC (T.switch_state_enumeration e s.enumeration 2).autom = stepEnumeration (fsmOfC s.enumeration) X.enumHello (e.nowMs / 1000) := by
+      rw [se1, hen.his, ← he.hs]; rfl
+    by_cases hfl : (bandDoHello (bandOfC s.enumeration_extra) e.nowMs).helloTs < e.nowMs + 1000
+    · have hfl' : (T.band_do_hello e s.enumeration_extra).band.hello_timeout_ts < e.nowMs + 1000 := by rw [hts]; exact hfl
+      simp only [hfl, hfl', decide_true, if_true]
+      refine ⟨hstep, ?_, ?_, ?_, ⟨by rw [hni.1]; exact hb.1, by rw [hni.2]; exact hb.2⟩, hen2, ⟨?_, ?_, ?_, ?_, ?_, ?_, ?_, ?_⟩, Nat.le_refl _⟩
+      · rw [← hband]; rfl
+      all_goals (first | exact hnm.symm | (simp only []; done) | (simp only [hnm]; done) | (simp [bandOfC]; done))
+    · have hfl' : ¬ (T.band_do_hello e s.enumeration_extra).band.hello_timeout_ts < e.nowMs + 1000 := by rw [hts]; exact hfl
+      simp only [hfl, hfl', decide_false, Bool.false_eq_true, if_false]
+      refine ⟨hstep, hband, ?_, ?_, ⟨by rw [hni.1]; exact hb.1, by rw [hni.2]; exact hb.2⟩, hen2, ⟨?_, ?_, ?_, ?_, ?_, ?_, ?_, ?_⟩, Nat.le_refl _⟩
+      all_goals (first | exact hnm.symm | (simp only []; done) | (simp only [hnm]; done) | (simp [bandOfC]; done))
+
+/-- state Pausing: the Hello branch, then the block branch -/
+theorem tick_st10 (e : T.Env) (he : EnvOk e) (s : T.automata_tick.S) (hb : BandOk s.enumeration_extra) (hen : EnumOk s.enumeration)
+    (hnm : s.now_ms = e.nowMs) (hltx : s.port_last_hello_tx_ms ≤ e.nowMs) :
+    let r := enumHello (fsmOfC s.enumeration) (bandOfC s.enumeration_extra) s.port_last_hello_tx_ms .wired e.nowMs
+    fsmOfC (T.automata_tick.st10 e s).enumeration = r.1 ∧ bandOfC (T.automata_tick.st10 e s).enumeration_extra = enumBlock r.2.1 e.nowMs ∧
+    (T.automata_tick.st10 e s).port_last_hello_tx_ms = r.2.2.1 ∧
+    (T.automata_tick.st10 e s).port_send_hello_calls = s.port_send_hello_calls + r.2.2.2.length ∧
+    EnumOk (T.automata_tick.st10 e s).enumeration ∧ onlyEnum s (T.automata_tick.st10 e s) := by
+  intro r
+  -- first branch
+  have hA : ∃ s1 : T.automata_tick.S,
+      s1 = (if (decide (s.enumeration_extra.hello_timeout_ts > 0) && decide (s.now_ms ≥ s.enumeration_extra.hello_timeout_ts)) = true
+              then T.automata_tick.st8 e s else s) ∧
+      fsmOfC s1.enumeration = r.1 ∧ bandOfC s1.enumeration_extra = r.2.1 ∧ s1.port_last_hello_tx_ms = r.2.2.1 ∧
+      s1.port_send_hello_calls = s.port_send_hello_calls + r.2.2.2.length ∧ BandOk s1.enumeration_extra ∧ EnumOk s1.enumeration ∧
+      onlyEnum s s1 := by
+    by_cases hdue : s.enumeration_extra.hello_timeout_ts > 0 ∧ e.nowMs ≥ s.enumeration_extra.hello_timeout_ts
+    · obtain ⟨a1, a2, a3, a4, a5, a6, a7, _⟩ := tick_st8 e he s hb hen hnm hltx hdue
+      refine ⟨T.automata_tick.st8 e s, ?_, a1, a2, a3, a4, a5, a6, a7⟩
+      simp only [hnm, hdue, and_self, decide_true, Bool.and_self, if_true]
+    · have hr : r = (fsmOfC s.enumeration, bandOfC s.enumeration_extra, s.port_last_hello_tx_ms, []) := by
+        show enumHello _ _ _ _ _ = _
+        unfold enumHello
+        have hdue' : ¬((bandOfC s.enumeration_extra).helloTs > 0 ∧ e.nowMs ≥ (bandOfC s.enumeration_extra).helloTs) := hdue
+        simp only [hdue', if_false]
+      have hc : (decide (s.enumeration_extra.hello_timeout_ts > 0) && decide (s.now_ms ≥ s.enumeration_extra.hello_timeout_ts)) = false := by
+        rw [Bool.and_eq_false_iff, hnm]
+        by_cases h0 : s.enumeration_extra.hello_timeout_ts > 0
+        · right; simp only [decide_eq_false_iff_not]; exact fun h => hdue ⟨h0, h⟩
+        · left; simp only [decide_eq_false_iff_not]; exact h0
+      refine ⟨s, by simp only [hc, Bool.false_eq_true, if_false], ?_, ?_, ?_, ?_, hb, hen, onlyEnum_refl s⟩
+      all_goals (rw [hr]; try simp)
+  obtain ⟨s1, hs1, b1, b2, b3, b4, b5, b6, b7⟩ := hA
+  unfold T.automata_tick.st10
+  simp only [← hs1]
+  have hnm1 : s1.now_ms = e.nowMs := by rw [b7.2.2.2.1, hnm]
+  by_cases hblk : s1.enumeration_extra.block_timeout_ts > 0 ∧ e.nowMs ≥ s1.enumeration_extra.block_timeout_ts
+  · obtain ⟨c1, c2, c3, c4, c5, c6⟩ := tick_st9 e he s1 b5
+    simp only [hnm1, hblk, and_self, decide_true, Bool.and_self, if_true]
+    have hblk' : r.2.1.blockTs > 0 ∧ e.nowMs ≥ r.2.1.blockTs := by rw [← b2]; exact hblk
+    refine ⟨by rw [c4]; exact b1, ?_, by rw [c5]; exact b3, by rw [c6]; exact b4, by rw [c4]; exact b6, onlyEnum_trans b7 c3⟩
+    rw [c1, b2]; unfold enumBlock; simp only [hblk', and_self, if_true]
+  · have hc : (decide (s1.enumeration_extra.block_timeout_ts > 0) && decide (s1.now_ms ≥ s1.enumeration_extra.block_timeout_ts)) = false := by
+      rw [Bool.and_eq_false_iff, hnm1]
+      by_cases h0 : s1.enumeration_extra.block_timeout_ts > 0
+      · right; simp only [decide_eq_false_iff_not]; exact fun h => hblk ⟨h0, h⟩
+      · left; simp only [decide_eq_false_iff_not]; exact h0
+    simp only [hc, Bool.false_eq_true, if_false]
+    have hblk' : ¬(r.2.1.blockTs > 0 ∧ e.nowMs ≥ r.2.1.blockTs) := by rw [← b2]; exact hblk
+    refine ⟨b1, ?_, b3, b4, b6, b7⟩
+    rw [b2]; unfold enumBlock; simp only [hblk', if_false]
+
+/-- stage 11 of the tick (the `if (enumeration && enumeration->extra)` block) is the model's `tickEnumStage` with a wired port -/
+theorem tick_st11 (e : T.Env) (he : EnvOk e) (s : T.automata_tick.S) (hb : BandOk s.enumeration_extra) (hen : EnumOk s.enumeration)
+    (hnm : s.now_ms = e.nowMs) (hltx : s.port_last_hello_tx_ms ≤ e.nowMs) :
+    let R := tickEnumStage (some (fsmOfC s.enumeration, some (bandOfC s.enumeration_extra))) (some (tableOfC s.sessions))
+      s.port_last_hello_tx_ms .wired e.nowMs
+    R.1 = some (fsmOfC (T.automata_tick.st11 e s).enumeration, some (bandOfC (T.automata_tick.st11 e s).enumeration_extra)) ∧
+    R.2.1 = (T.automata_tick.st11 e s).port_last_hello_tx_ms ∧
+    (T.automata_tick.st11 e s).port_send_hello_calls = s.port_send_hello_calls + R.2.2.length ∧
+    onlyEnum s (T.automata_tick.st11 e s) := by
+  intro R
+  obtain ⟨ie1, ie2⟩ := session_table_is_empty_eq e s.sessions
+  obtain ⟨ac1, ac2⟩ := session_table_all_complete_eq e s.sessions
+  -- the state after the table-driven update
+  have hU : ∃ s1 : T.automata_tick.S,
+      s1 = (let s0 : T.automata_tick.S := { s with table_empty := (tableOfC s.sessions).isEmpty, all_complete := (tableOfC s.sessions).allComplete }
+            if ((s0.enumeration.current_state : Int) != 0) = true then
+              (if s0.table_empty = true then T.automata_tick.st4 e s0
+               else if s0.all_complete = true then { s0 with enumeration := (T.switch_state_enumeration e s0.enumeration 0).autom }
+               else { s0 with enumeration := (T.switch_state_enumeration e s0.enumeration 1).autom })
+            else s0) ∧
+      (fsmOfC s1.enumeration, bandOfC s1.enumeration_extra) =
+        enumUpdate (fsmOfC s.enumeration) (bandOfC s.enumeration_extra) (tableOfC s.sessions).isEmpty (tableOfC s.sessions).allComplete (e.nowMs / 1000) ∧
+      BandOk s1.enumeration_extra ∧ EnumOk s1.enumeration ∧ onlyEnum s s1 ∧ s1.port_last_hello_tx_ms = s.port_last_hello_tx_ms ∧
+      s1.port_send_hello_calls = s.port_send_hello_calls := by
+    refine ⟨_, rfl, ?_⟩
+    simp only []
+    unfold enumUpdate
+    by_cases h0 : s.enumeration.current_state = 0
+    · have hc : (((s.enumeration.current_state : Int)) != 0) = false := by simp [h0]
+      have hm : ¬ (fsmOfC s.enumeration).state ≠ 0 := by simp [fsmOfC, h0]
+      simp only [hc, Bool.false_eq_true, if_false, hm]
+      refine ⟨?_, hb, hen, ⟨?_, ?_, ?_, ?_, ?_, ?_, ?_, ?_⟩, ?_, ?_⟩
+      all_goals (first | exact True.intro | rfl | assumption)
+    · have hc : (((s.enumeration.current_state : Int)) != 0) = true := by
+        simp only [bne_iff_ne, ne_eq]; exact_mod_cast h0
+      have hm : (fsmOfC s.enumeration).state ≠ 0 := h0
+      simp only [hc, if_true, hm, ne_eq, not_false_eq_true]
+      by_cases hte : (tableOfC s.sessions).isEmpty = true
+      · simp only [hte, if_true]
+        unfold T.automata_tick.st4
+        refine ⟨?_, ⟨hb.1, hb.2⟩, ⟨hen.hno, hen.his⟩, ⟨?_, ?_, ?_, ?_, ?_, ?_, ?_, ?_⟩, ?_, ?_⟩
+        all_goals (first | exact True.intro | rfl | assumption)
+      · have hte' : (tableOfC s.sessions).isEmpty = false := by simpa using hte
+        simp only [hte', Bool.false_eq_true, if_false]
+        by_cases hac : (tableOfC s.sessions).allComplete = true
+        · simp only [hac, if_true]
+          obtain ⟨se1, se2⟩ := switch_state_enumeration_eq e s.enumeration 0 hen.hno
+          refine ⟨?_, hb, enumOk_same _ _ se2 hen, ⟨?_, ?_, ?_, ?_, ?_, ?_, ?_, ?_⟩, ?_, ?_⟩
+          · rw [se1, hen.his, ← he.hs]; rfl
+          all_goals (first | exact True.intro | rfl | assumption)
+        · have hac' : (tableOfC s.sessions).allComplete = false := by simpa using hac
+          simp only [hac', Bool.false_eq_true, if_false]
+          obtain ⟨se1, se2⟩ := switch_state_enumeration_eq e s.enumeration 1 hen.hno
+          refine ⟨?_, hb, enumOk_same _ _ se2 hen, ⟨?_, ?_, ?_, ?_, ?_, ?_, ?_, ?_⟩, ?_, ?_⟩
+          · rw [se1, hen.his, ← he.hs]; rfl
+          all_goals (first | exact True.intro | rfl | assumption)
+  obtain ⟨s1, hs1, u1, u2, u3, u4, u5, u6⟩ := hU
+  have hst : T.automata_tick.st11 e s =
+      (if ((s1.enumeration.current_state : Int) == 1) = true then T.automata_tick.st10 e s1 else s1) := by
+    unfold T.automata_tick.st11
+    simp only [ie1, ie2, ac1, ac2]
+    rw [hs1]
+  rw [hst]
+  have hnm1 : s1.now_ms = e.nowMs := by rw [u4.2.2.2.1, hnm]
+  have hltx1 : s1.port_last_hello_tx_ms ≤ e.nowMs := by rw [u5]; exact hltx
+  have hRdef : R = (let u := enumUpdate (fsmOfC s.enumeration) (bandOfC s.enumeration_extra) (tableOfC s.sessions).isEmpty (tableOfC s.sessions).allComplete (e.nowMs / 1000)
+      if u.1.state = 1 then
+        let r := enumHello u.1 u.2 s.port_last_hello_tx_ms .wired e.nowMs
+        (some (r.1, some (enumBlock r.2.1 e.nowMs)), r.2.2.1, r.2.2.2)
+      else (some (u.1, some u.2), s.port_last_hello_tx_ms, [])) := rfl
+  rw [hRdef, ← u1]
+  simp only []
+  by_cases h1 : s1.enumeration.current_state = 1
+  · have hc : (((s1.enumeration.current_state : Int)) == 1) = true := by simp [h1]
+    have hm : (fsmOfC s1.enumeration).state = 1 := h1
+    simp only [hc, if_true, hm]
+    obtain ⟨t1, t2, t3, t4, t5, t6⟩ := tick_st10 e he s1 u2 u3 hnm1 hltx1
+    rw [u5] at t1 t2 t3 t4
+    exact ⟨by rw [t1, t2], t3.symm, by rw [t4, u6], onlyEnum_trans u4 t6⟩
+  · have hc : (((s1.enumeration.current_state : Int)) == 1) = false := by
+      rw [beq_eq_false_iff_ne]; exact_mod_cast h1
+    have hm : ¬ (fsmOfC s1.enumeration).state = 1 := h1
+    simp only [hc, Bool.false_eq_true, if_false, hm]
+    refine ⟨?_, u5.symm, by simp [u6], u4⟩
+    first | exact True.intro | rfl
+
+/-- AUTOMATA_TICK AS TRANSLATED FROM THE C TEXT IS THE MODEL'S `tick` (all four objects present, port wired): the mapping engine, its
+    extra state, the session table, the enumeration automaton, the RepeatBand record and the port's last-transmit stamp after the
+    call are the model's, the callback was invoked once per Hello the model sends, and the recursion inside never runs out of fuel -/
+theorem automata_tick_eq (e : T.Env) (he : EnvOk e) (m en : T.automata) (t : T.session_table) (p : T.lltd_automata_tick_port)
+    (mx : T.mapping_state) (bx : T.band_state) (ltx : Nat)
+    (hm : AutOk m) (him : IsMapping m) (hen : EnumOk en) (ht : TickTblOk t) (hb : BandOk bx) (hltx : ltx ≤ e.nowMs) :
+    let r := T.automata_tick e m en t p mx bx ltx
+    let M := tick { mapping := some (fsmOfC m, some (mapOfC mx)), enum := some (fsmOfC en, some (bandOfC bx)),
+                    table := some (tableOfC t), lastTx := ltx } .wired e.nowMs
+    M.1 = { mapping := some (fsmOfC r.mapping, some (mapOfC r.mapping_extra)),
+            enum := some (fsmOfC r.enumeration, some (bandOfC r.enumeration_extra)),
+            table := some (tableOfC r.sessions), lastTx := r.port_last_hello_tx_ms } ∧
+    r.port_send_hello_calls = M.2.length ∧ r.diverged = false := by
+  intro r M
+  have hnow : e.nowS < u64 := by have := he.hc.2; omega
+  -- the three stages on the initial state
+  let s0 : T.automata_tick.S := { mapping := m, enumeration := en, sessions := t, port := p, mapping_extra := mx, enumeration_extra := bx,
+                                  port_last_hello_tx_ms := ltx, now_ms := e.nowMs, now_s := e.nowS }
+  have hr : r = T.automata_tick.st11 e (T.automata_tick.st3 e (T.automata_tick.st2 e s0)) := rfl
+  obtain ⟨a1, a2, a3, a4, a5⟩ := tick_st2 e hnow s0 hm him ht
+  have hd2 : (T.automata_tick.st2 e s0).done = false := by rw [a2.2.2.2.2.2.2.1]
+  have hb2 : (T.automata_tick.st2 e s0).brk = false := by rw [a2.2.2.2.2.2.2.2]
+  have hn2 : (T.automata_tick.st2 e s0).now_s = e.nowS := by rw [a2.2.2.2.2.2.1]
+  obtain ⟨b1, b2, b3, b4⟩ := tick_st3 e (T.automata_tick.st2 e s0) a5 hd2 hb2 hn2
+  generalize hs2 : T.automata_tick.st2 e s0 = s2 at *
+  generalize hs3 : T.automata_tick.st3 e s2 = s3 at *
+  have hbx : s3.enumeration_extra = bx := by rw [b2.2.2.2.1, a2.2.1]
+  have hex : s3.enumeration = en := by rw [b2.2.2.1, a2.1]
+  have hnm3 : s3.now_ms = e.nowMs := by rw [b2.2.2.2.2.2.2.1, a2.2.2.2.2.1]
+  have hl3 : s3.port_last_hello_tx_ms = ltx := by rw [b2.2.2.2.2.1, a2.2.2.1]
+  have hc3 : s3.port_send_hello_calls = 0 := by rw [b2.2.2.2.2.2.1, a2.2.2.2.1]
+  obtain ⟨c1, c2, c3, c4⟩ := tick_st11 e he s3 (by rw [hbx]; exact hb) (by rw [hex]; exact hen) hnm3 (by rw [hl3]; exact hltx)
+  rw [hbx, hex, hl3] at c1 c2 c3
+  rw [hr]
+  have hM : M = (let nowS := e.nowMs / 1000
+      let mt := tickMapStage (some (fsmOfC m, some (mapOfC mx))) (some (tableOfC t)) nowS
+      let table := mt.2.map (fun t => t.expire nowS)
+      let en3 := tickEnumStage (some (fsmOfC en, some (bandOfC bx))) table ltx .wired e.nowMs
+      ({ mapping := mt.1, enum := en3.1, table := table, lastTx := en3.2.1 }, en3.2.2)) := rfl
+  rw [hM]
+  simp only [← he.hs]
+  have a1' : tickMapStage (some (fsmOfC m, some (mapOfC mx))) (some (tableOfC t)) e.nowS =
+      (some (fsmOfC s2.mapping, some (mapOfC s2.mapping_extra)), some (tableOfC s2.sessions)) := a1
+  rw [a1']
+  simp only [Option.map_some, ← b1]
+  rw [← c1, ← c2]
+  refine ⟨?_, ?_, ?_⟩
+  · have e1 : (T.automata_tick.st11 e s3).mapping = s2.mapping := by rw [c4.1, b2.1]
+    have e2 : (T.automata_tick.st11 e s3).mapping_extra = s2.mapping_extra := by rw [c4.2.1, b2.2.1]
+    have e3 : (T.automata_tick.st11 e s3).sessions = s3.sessions := c4.2.2.1
+    rw [e1, e2, e3]
+  · rw [c3, hc3]; simp
+  · rw [c4.2.2.2.2.2.1, b2.2.2.2.2.2.2.2.2.1, a3]
+
+
 end LLTD.TEq
